@@ -37,6 +37,7 @@ type shardOutcome struct {
 	aggs     []*Agg
 	crashes  []Violation
 	stalled  bool
+	why      string // why the shard is inconclusive
 	gaveUp   bool
 	hashFile []string
 }
@@ -69,6 +70,7 @@ func runShard(self string, ck *Check, tier string, seed int64, shard, nshards in
 		}
 		if err := cmd.Start(); err != nil {
 			lf.Close()
+			out.why = fmt.Sprintf("shard %d: the worker could not be started: %v", shard, err)
 			out.stalled = true
 			return out
 		}
@@ -81,6 +83,7 @@ func runShard(self string, ck *Check, tier string, seed int64, shard, nshards in
 			cmd.Process.Kill()
 			<-done
 			lf.Close()
+			out.why = fmt.Sprintf("shard %d: the wall-clock limit of the whole run was reached", shard)
 			out.stalled = true
 			return out
 		}
@@ -89,6 +92,7 @@ func runShard(self string, ck *Check, tier string, seed int64, shard, nshards in
 			rb, rerr := os.ReadFile(fmt.Sprintf("%s/result.%d.%d.json", dir, shard, attempt))
 			a := newAgg()
 			if rerr != nil || json.Unmarshal(rb, a) != nil {
+				out.why = fmt.Sprintf("shard %d: the worker ended normally but its result file cannot be read (%v)", shard, rerr)
 				out.stalled = true
 				return out
 			}
@@ -103,6 +107,11 @@ func runShard(self string, ck *Check, tier string, seed int64, shard, nshards in
 		}
 		logb, _ := os.ReadFile(logPath)
 		if code == 5 || code == 64 {
+			tail := string(logb)
+			if len(tail) > 600 {
+				tail = tail[len(tail)-600:]
+			}
+			out.why = fmt.Sprintf("shard %d: worker exit status %d (5: a case made no progress for 10 minutes of wall time; 64: harness error): %s", shard, code, strings.TrimSpace(tail))
 			out.stalled = true
 			return out
 		}
@@ -201,9 +210,13 @@ func RunMain(id, tier string, seed int64) int {
 	total.Tier = tier
 	var hashes []uint64
 	stalled, gaveUp := false, false
+	why := ""
 	var crashes []Violation
 	for _, o := range outs {
 		stalled = stalled || o.stalled
+		if o.why != "" && why == "" {
+			why = o.why
+		}
 		gaveUp = gaveUp || o.gaveUp
 		crashes = append(crashes, o.crashes...)
 		for _, a := range o.aggs {
@@ -300,7 +313,7 @@ func RunMain(id, tier string, seed int64) int {
 
 	inconclusive := ""
 	if stalled {
-		inconclusive = "a worker stalled, could not be started or the wall-clock limit was reached"
+		inconclusive = "a worker stalled, could not be started or the wall-clock limit was reached: " + why
 	}
 	if gaveUp {
 		inconclusive = "a shard crashed too often to be explored"
